@@ -2,6 +2,7 @@
 Model/Sliding.v (through remaps); ProximityArchive by the property's own statement (oracle) and the abstract nearest-entry theorem."""
 import math
 import random
+import py2v_retrieve
 from fractions import Fraction
 
 import numpy as np
@@ -13,7 +14,9 @@ from common import err_code
 CONFIG = {
     "cone": ["Base/ListUtil.v", "Base/QUtil.v", "Base/FirstArgmax.v", "Base/MixedRadix.v", "Model/Store.v", "Proofs/StoreProofs.v",
              "Model/Archive.v", "Proofs/ArchiveProofs.v", "Proofs/C01Proofs.v", "Proofs/C02Proofs.v", "Proofs/C07Proofs.v",
-             "Proofs/C07NearestProofs.v", "Model/Sliding.v", "Proofs/SlidingProofs.v", "Properties/C07.v"],
+             "Proofs/C07NearestProofs.v", "Model/Sliding.v", "Proofs/SlidingProofs.v", "Properties/C07.v",
+             "Model/RetrieveFacts.v", "Generated/RetrieveGen.v", "Refine/RetrieveRefine.v"],
+    "extra_property_files": ["Refine/RetrieveRefine.v"],
     "trusted": ["Model/Archive.v, Model/Sliding.v: hand-written, tied by the correspondence run (sampled)",
                 "the blank values (NaN / -1 / 0 / None per field dtype) are checked by the harness on the real arrays; the model has one blank",
                 "ProximityArchive: the k-D tree is external; C07_proximity_nearest is a theorem about ANY minimiser of an abstract distance, the "
@@ -496,6 +499,7 @@ def empty_sample_stream(rep, rng):
 
 
 def check(rep, tier, seed, driver):
+    py2v_retrieve.report(rep)
     rng = random.Random(seed)
     n = 160 if tier == "quick" else 3000
     rep.rule = ("histories of add/add_single/clear on Grid / CVT (k-D tree, brute force, chunked) archives (default and CMA-MAE, both dtypes, "
